@@ -28,11 +28,14 @@ package config
 //@   ensures#errfalse err != nil ==> result == false
 //@   assigns nothing
 
-// "exactly the sub-packages that ... do not match an exclusion regex".
-//@ func (*Config).ShouldExcludeSubpkg props=C07
-//@   ensures result == (exists i int :: 0 <= i && i < len(c.ExcludeSubpkgRegex) && regexp.MatchString(c.ExcludeSubpkgRegex[i], pkgPath))
-//@   loop 0: invariant forall j int :: 0 <= j && j < $i ==> !regexp.MatchString(c.ExcludeSubpkgRegex[j], pkgPath)
-//@   panics_if exists i int :: 0 <= i && i < len(c.ExcludeSubpkgRegex) && second(regexp.MatchString(c.ExcludeSubpkgRegex[i], pkgPath)) != nil
+// "exactly the sub-packages that ... do not match an exclusion regex"; an invalid regex is an error (C09).
+//@ define excluded(c *Config, p string) bool = exists i int :: 0 <= i && i < len(c.ExcludeSubpkgRegex) && regexp.MatchString(c.ExcludeSubpkgRegex[i], p)
+//@ define badRegex(c *Config, p string) bool = exists i int :: 0 <= i && i < len(c.ExcludeSubpkgRegex) && second(regexp.MatchString(c.ExcludeSubpkgRegex[i], p)) != nil
+//@ func (*Config).ShouldExcludeSubpkg props=C07,C09
+//@   ensures#iff err == nil ==> result == excluded(c, pkgPath)
+//@   ensures#err !badRegex(c, pkgPath) ==> err == nil
+//@   ensures#errfalse err != nil ==> result == false
+//@   loop 0: invariant forall j int :: 0 <= j && j < $i ==> !regexp.MatchString(c.ExcludeSubpkgRegex[j], pkgPath) && second(regexp.MatchString(c.ExcludeSubpkgRegex[j], pkgPath)) == nil
 //@   assigns nothing
 
 // "exactly the sub-packages that contain Go files": the filter applied to the loader's result.
@@ -43,19 +46,76 @@ package config
 //@   loop 0: invariant forall j int :: 0 <= j && j < $i && len(pkgs[j].GoFiles) != 0 ==> (exists i int :: 0 <= i && i < len(paths) && paths[i] == pkgs[j].PkgPath)
 //@   assigns nothing
 
-// "for each selected interface exactly one mock is produced per entry of its configs list (one if there is none)".
+// "for each selected interface exactly one mock is produced per entry of its configs list (one if
+// there is none)"; every entry is merged from the interface's config (C08: entry, then interface).
+//   srcOK(c): c can be the less specific side of a merge; destOK(s, d): d can be merged into from s.
+//@ define srcOK(c *Config) bool = c != nil && allocated(c) && allPtrFieldsSet(c)
 //@ func (*InterfaceConfig).Initialize props=C07,C08
-//@   requires c.Config != nil && (forall i int :: 0 <= i && i < len(c.Configs) ==> c.Configs[i] != nil)
+//@   requires srcOK(c.Config) && Ghost() && Shape()
+//@   site mergeConfigs: $1 == *c.Config && $2 == subCfg
 //@   ensures#one old(len(c.Configs)) == 0 ==> len(c.Configs) == 1 && c.Configs[0] == c.Config
 //@   ensures#same old(len(c.Configs)) > 0 ==> len(c.Configs) == old(len(c.Configs)) && (forall i int :: 0 <= i && i < len(c.Configs) ==> c.Configs[i] == old(c.Configs[i]))
 //@   ensures#nil err == nil
+//@   ensures#nonempty len(c.Configs) >= 1
+//@   ensures#wf forall i int :: 0 <= i && i < len(c.Configs) ==> allPtrFieldsSet(c.Configs[i])
+//@   ensures#tree Ghost() && Shape() && c.Config == old(c.Config) && srcOK(c.Config)
+//@   ensures#frame forall d *Config :: old(allocated(d)) && (forall i int :: 0 <= i && i < old(len(c.Configs)) ==> old(c.Configs[i]) != d) ==> *d == old(*d)
+//@   ensures#mono forall d *Config :: old(allPtrFieldsSet(d)) ==> allPtrFieldsSet(d)
+//@   ensures#otherifaces forall ic *InterfaceConfig :: ic != c ==> ic.Configs == old(ic.Configs) && ic.Config == old(ic.Config)
+//@   loop 0: invariant Ghost() && Shape() && srcOK(c.Config) && c.Config == old(c.Config) && c.Configs == old(c.Configs)
+//@   loop 0: invariant#mono forall d *Config :: old(allPtrFieldsSet(d)) ==> allPtrFieldsSet(d)
+//@   loop 0: invariant forall j int :: 0 <= j && j < $i ==> allPtrFieldsSet(c.Configs[j])
+//@   loop 0: invariant#frame forall d *Config :: old(allocated(d)) && (forall i int :: 0 <= i && i < len(c.Configs) ==> c.Configs[i] != d) ==> *d == old(*d)
+//@   assigns c.Configs, fields(Config), maps(map[string]any), fresh
+
+// Every interface of the package inherits from the package's config (C08: ..., then the package's config).
+//@ define ifaceDone(ic *InterfaceConfig) bool = ic != nil && ic.Config != nil && allPtrFieldsSet(ic.Config) && len(ic.Configs) >= 1
+//@ func (*PackageConfig).Initialize props=C08,C07
+//@   requires srcOK(c.Config) && Ghost() && Shape()
+//@   site mergeConfigs: $1 == *c.Config && $2 == ifaceConfig.Config
+//@   ensures#nil err == nil
+//@   ensures#keys forall k string :: (k in c.Interfaces) <==> old(k in c.Interfaces)
+//@   ensures#done forall k string :: (k in c.Interfaces) ==> ifaceDone(c.Interfaces[k])
+//@   ensures#entries forall k string, i int :: (k in c.Interfaces) && 0 <= i && i < len(c.Interfaces[k].Configs) ==> allPtrFieldsSet(c.Interfaces[k].Configs[i])
+//@   ensures#mono forall d *Config :: old(allPtrFieldsSet(d)) ==> allPtrFieldsSet(d)
+//@   ensures#tree Ghost() && Shape() && srcOK(c.Config) && c.Config == old(c.Config) && c.Interfaces == old(c.Interfaces)
+//@   loop 0: invariant Ghost() && Shape() && srcOK(c.Config) && c.Config == old(c.Config) && c.Interfaces == old(c.Interfaces)
+//@   loop 0: invariant#keys forall k string :: (k in c.Interfaces) <==> old(k in c.Interfaces)
+//@   loop 0: invariant#othermaps forall m map[string]*InterfaceConfig :: m != c.Interfaces ==> unchanged(m)
+//@   loop 0: invariant#mono forall d *Config :: old(allPtrFieldsSet(d)) ==> allPtrFieldsSet(d)
+//@   loop 0: invariant#done forall k string :: (k in c.Interfaces) && $visited[k] ==> ifaceDone(c.Interfaces[k])
+//@   loop 0: invariant#entries forall k string, i int :: (k in c.Interfaces) && $visited[k] && 0 <= i && i < len(c.Interfaces[k].Configs) ==> allPtrFieldsSet(c.Interfaces[k].Configs[i])
+//@   assigns c.Interfaces, fields(InterfaceConfig), fields(Config), maps(map[string]any), fresh
 
 //@ func NewInterfaceConfig props=C07,C08
-//@   ensures result != nil && result.Config != nil && len(result.Configs) == 0 && fresh(result) && fresh(result.Config)
+//@   ensures result != nil && result.Config != nil && len(result.Configs) == 0 && fresh(result) && fresh(result.Config) && *result.Config == zero(Config)
 //@   assigns fresh
 
+// Root level: every configured package inherits from the top level (C08); with recursive: true exactly
+// the sub-packages with Go files that the package's exclusion list does not match are added and inherit
+// from the recursive package (C07).
+//@ define pkgDone(pc *PackageConfig) bool = pc != nil && pc.Config != nil && allPtrFieldsSet(pc.Config)
+//@ func (*RootConfig).Initialize props=C08,C07
+//@   requires Ghost() && Shape() && allPtrFieldsSet(c.Config) && depth(c.TemplateData) == 0 && depth(c.Anchors) == 0
+//@   site mergeConfigs@0: $1 == c.Config && $2 == pkgConfig.Config
+//@   site mergeConfigs@1: $1 == *parentPkgConfig.Config && $2 == subPkgConfig.Config
+//@   ensures#done err == nil ==> (forall k string :: (k in c.Packages) ==> pkgDone(c.Packages[k]))
+//@   ensures#keys forall k string :: old(k in c.Packages) ==> (k in c.Packages)
+//@   loop 0: invariant Ghost() && Shape() && c.Config == old(c.Config) && c.Packages == old(c.Packages)
+//@   loop 0: invariant#keys forall k string :: (k in c.Packages) <==> old(k in c.Packages)
+//@   loop 0: invariant#mono forall d *Config :: old(allPtrFieldsSet(d)) ==> allPtrFieldsSet(d)
+//@   loop 0: invariant#done forall k string :: (k in c.Packages) && $visited[k] ==> pkgDone(c.Packages[k])
+//@   loop 0: invariant#rec forall j int :: 0 <= j && j < len(recursivePackages) ==> (recursivePackages[j] in c.Packages) && $visited[recursivePackages[j]]
+//@   loop 1: invariant Ghost() && Shape() && c.Packages == old(c.Packages)
+//@   loop 1: invariant#keys forall k string :: old(k in c.Packages) ==> (k in c.Packages)
+//@   loop 1: invariant#done forall k string :: (k in c.Packages) ==> pkgDone(c.Packages[k])
+//@   loop 2: invariant Ghost() && Shape() && c.Packages == old(c.Packages) && pkgDone(parentPkgConfig) && (recursivePackageName in c.Packages) && c.Packages[recursivePackageName] == parentPkgConfig
+//@   loop 2: invariant#keys forall k string :: old(k in c.Packages) ==> (k in c.Packages)
+//@   loop 2: invariant#done forall k string :: (k in c.Packages) ==> pkgDone(c.Packages[k])
+//@   loop 2: invariant#added[C07] forall j int :: 0 <= j && j < $i && !excluded(parentPkgConfig.Config, subpkgs[j]) ==> (subpkgs[j] in c.Packages)
+
 //@ func NewPackageConfig props=C07,C08
-//@   ensures result != nil && result.Config != nil && result.Interfaces != nil && fresh(result) && fresh(result.Config) && fresh(result.Interfaces)
+//@   ensures result != nil && result.Config != nil && result.Interfaces != nil && fresh(result) && fresh(result.Config) && fresh(result.Interfaces) && *result.Config == zero(Config)
 //@   ensures forall k string :: !(k in result.Interfaces)
 //@   assigns fresh
 
@@ -111,14 +171,24 @@ package config
 //   topmaps(c): the map[string]any parameters are top-level trees (ghost depth 0).
 //@ define topmaps(c *Config) bool = (c.TemplateData != nil ==> depth(c.TemplateData) == 0) && (c.Anchors != nil ==> depth(c.Anchors) == 0)
 //@ define ghostFresh() bool = forall r map[string]any :: !allocated(r) ==> depth(r) == 0
+//   AllTop: the map[string]any parameters of every existing Config are top-level trees.
+//@ define AllTop() bool = forall d *Config :: topmaps(d)
+//@ define Ghost() bool = TreeInv() && ghostFresh() && AllTop()
+//   Shape: no configs list of any interface contains a nil entry (a nil entry makes mergeConfigs panic).
+//@ define Shape() bool = forall ic *InterfaceConfig, i int :: 0 <= i && i < len(ic.Configs) ==> ic.Configs[i] != nil
+//   sep(s, d): the top-level maps of the two levels are different objects (what the YAML decoder
+//   and mergeConfigs' own fresh allocations give); the key-by-key postconditions are stated under it.
+//@ define sep(sA map[string]any, sT map[string]any, d *Config) bool = (d.Anchors != nil ==> d.Anchors != d.TemplateData && d.Anchors != sT) && (d.TemplateData != nil ==> d.TemplateData != sA)
 //@ func mergeConfigs props=C08
-//@   requires dest != nil && allPtrFieldsSet(src) && TreeInv() && ghostFresh() && topmaps(dest)
+//@   requires dest != nil && allocated(dest) && allPtrFieldsSet(src) && Ghost()
 //@   requires depth(src.TemplateData) == 0 && depth(src.Anchors) == 0
-//@   requires (dest.Anchors != nil ==> dest.Anchors != dest.TemplateData && dest.Anchors != src.TemplateData) && (dest.TemplateData != nil ==> dest.TemplateData != src.Anchors)
 //@   ensures#ptr fieldwise(ptr, src, dest)
 //@   ensures#zeroable fieldwise(zeroable, src, dest)
-//@   ensures#strmap fieldwise(strmap, src, dest)
+//@   ensures#strmap old(sep(src.Anchors, src.TemplateData, dest)) ==> fieldwise(strmap, src, dest)
+//@   ensures#mapsset dest.TemplateData != nil && dest.Anchors != nil && (old(dest.TemplateData) != nil ==> dest.TemplateData == old(dest.TemplateData)) && (old(dest.Anchors) != nil ==> dest.Anchors == old(dest.Anchors))
+//@   ensures#mapsfresh (old(dest.TemplateData) == nil ==> fresh(dest.TemplateData)) && (old(dest.Anchors) == nil ==> fresh(dest.Anchors))
 //@   ensures#wf allPtrFieldsSet(dest)
-//@   ensures#tree TreeInv() && ghostFresh() && topmaps(dest) && dest.TemplateData != nil && dest.Anchors != nil
-//@   ensures#siblings forall m map[string]any :: old(allocated(m)) && depth(m) <= 0 && m != old(dest.TemplateData) && m != old(dest.Anchors) ==> unchanged(m)
+//@   ensures#mono forall d *Config :: old(allPtrFieldsSet(d)) ==> allPtrFieldsSet(d)
+//@   ensures#tree Ghost()
+//@   ensures#siblings old(sep(src.Anchors, src.TemplateData, dest)) ==> (forall m map[string]any :: old(allocated(m)) && depth(m) <= 0 && m != old(dest.TemplateData) && m != old(dest.Anchors) ==> unchanged(m))
 //@   assigns *dest, maps(map[string]any), fresh
